@@ -107,8 +107,8 @@ class E4(object):
                     r["id_attr"] = stored[0] if stored else None
             self.add("registry_key", "%s.%s key is the object's id" % (owner, attr),
                      "%s:%d" % (mod.path, r["construct"].lineno), ok, why)
-            # get-or-create guard: the store is under `key not in registry`
-            guarded = self._store_guarded(r)
+            # get-or-create guard: the store happens only when the key is absent
+            guarded = self._store_guarded(r) or self._store_guarded_events(owner, attr)
             self.add("get_or_create", "%s.%s store is guarded by absence test" % (owner, attr),
                      "%s:%d" % (mod.path, r["construct"].lineno), guarded,
                      "" if guarded else "the registry slot is overwritten although an "
@@ -136,6 +136,23 @@ class E4(object):
                         isinstance(t.ops[0], ast.NotIn) and self._is_reg(t.comparators[0], r):
                     return True
         return False
+
+    def _store_guarded_events(self, owner, attr):
+        """event-based form: every reg_set of a new object on the registry
+        happens on a path where `key in registry` was decided false"""
+        from .e3 import pc_truth
+        from .events import each_event
+        n = 0
+        for p, e, loops in each_event(self.model, self.model.runtime_entries(), ("reg_set",)):
+            reg = e["reg"]
+            if reg[0] != "reg" or (reg[1][1], reg[2]) != (owner, attr):
+                continue
+            if e["value"][0] != "obj":
+                continue
+            n += 1
+            if pc_truth(e["pc"]).get(("cmp", "in", e["key"], reg)) is not False:
+                return False
+        return n > 0
 
     def _is_reg(self, node, r):
         return isinstance(node, ast.Attribute) and node.attr == r["attr"] and \
